@@ -22,7 +22,8 @@ from common import qlit, qlist, zlit, coqc_many, parse_evals, parse_zlist, VERIF
 THEOREMS = ["C05_weighted_mean_bounds", "C05_cx_rate_is_bounded_mean", "C05_population_is_mean",
             "C05_cx_formula", "C05_cx_vanishes", "C05_bes_formula", "C05_bes_vanishes",
             "C05_zeff_formula", "C05_zeff_between", "C05_ion_density_formula",
-            "C05_interaction_energy_frame"]
+            "C05_interaction_energy_frame", "C05_cx_rate_bounded_for_nonnegative_tables", "C05_history_independence",
+            "C05_composition_add_semantics", "C05_sqrt_oracle_bound"]
 
 SCALE_CX = 2.0 ** -112      # ~ 1.9e-34 W m^3          (the same constants are in c05_impl.py)
 SCALE_PEC = 2.0 ** -110
@@ -675,7 +676,8 @@ def run(ctx):
         "non-negative densities, charges >= 0 and a positive total charge density (stated as hypotheses of the theorem)",
     ]
     ctx.rebuild()
-    ctx.proofs("Properties.C05", THEOREMS, extra_modules=("Model.C05_Check", "Proofs.C05_Check"))
+    ctx.proofs("Properties.C05", THEOREMS, extra_modules=("Model.C05_Check", "Proofs.C05_Check", "Model.C05_History",
+                                                          "Proofs.C05_History"))
 
     import cherab
     from common import REPO
@@ -695,10 +697,35 @@ def run(ctx):
               "Open Scope Q_scope.\n"
               "Definition K : consts := mkConsts %s %s %s.\n" % (qlit(e_charge), qlit(amu), qlit(k4pi)))
 
+    # ---- (T) kernel-checked tie: constants and the probed notification table (coq/Gen/C05/Tie.v) ----------
+    probed, probe_detail = impl.probe_notifications()
+    from fractions import Fraction
+    pi_lo, pi_hi = Fraction(3141592653589793, 10 ** 15), Fraction(3141592653589794, 10 ** 15)
+    tie = ("Require Import Cherab.Common.Qx Cherab.Model.C05_BeamModels Cherab.Model.C05_History Cherab.Model.C05_Check.\n"
+           "Open Scope Q_scope.\n"
+           "(* regenerated on every run: constants.pyx as read by the translator, and which public mutator clears the\n"
+           "   caches of live BeamCXLine / BeamEmissionLine objects, obtained by probing the running implementation *)\n"
+           "Definition K : consts := mkConsts %s %s %s.\n"
+           "Lemma constants_ok : (Qle_bool (1 / (4 * %s) * (1 - pow2 (-51))) (c_k4pi K) && Qle_bool (c_k4pi K) (1 / (4 * %s) * (1 + pow2 (-51)))\n"
+           "                      && negb (Qle_bool (c_e K) 0) && negb (Qle_bool (c_amu K) 0)) = true.\n"
+           "Proof. vm_compute. reflexivity. Qed.\n"
+           "Definition probed : list (Z * (bool * bool)) := [%s].\n"
+           "Lemma table_ok_probed : table_ok (table_of probed) = true.\nProof. vm_compute. reflexivity. Qed.\n"
+           % (qlit(e_charge), qlit(amu), qlit(k4pi), qlit(pi_hi), qlit(pi_lo),
+              "; ".join("(%d%%Z, (%s, %s))" % (k, str(a).lower(), str(b).lower()) for k, (a, b) in sorted(probed.items()))))
+    from common import coqc
+    ok_tie, out_tie = coqc(ctx.write_gen("Tie.v", tie), timeout=300)
+    ctx.obligation("Gen/C05/Tie.v: constants_ok (RECIP_4_PI within 2^-51 of 1/(4 pi), e > 0, amu > 0) and table_ok_probed "
+                   "(every cache-relevant mutator kind clears the caches of both live models; table probed from the "
+                   "implementation: %s)" % {impl.PROBE_KINDS[k]: v for k, v in sorted(probed.items())}, "tie", ok_tie, out_tie)
+    if not ok_tie:
+        bad_kinds = [k for k in range(6) if not all(probed[k])]
+        ctx.log("Tie.v FAILED: mutator kinds that leave a cache uncleared: %s" % [impl.PROBE_KINDS[k] for k in bad_kinds])
+
     # ---- cases: corpus first, then generated ----------------------------------------------------
     rng = ctx.rng
     nel = len(impl.ELEMENTS)
-    n_cx, n_bes, n_pl = (80, 30, 20) if ctx.quick else (4000, 1400, 600)
+    n_cx, n_bes, n_pl = (70, 28, 20) if ctx.quick else (4000, 1400, 600)
     n_hist, n_steps = (10, 6) if ctx.quick else (150, 9)
     cases = []
     for p in sorted(glob.glob(os.path.join(VERIF, "corpus", "C05", "*.json"))):
@@ -724,7 +751,7 @@ def run(ctx):
         cases += [gen_case(rng, "plasma", nel) for _ in range(n_pl)]
         histories += [gen_history(rng, nel, n_steps) for _ in range(n_hist)]
 
-    outs, texts, search_fails, log_fails, fresh_fails = [], [], [], [], []
+    outs, texts, search_fails, log_fails, fresh_fails, hist_views = [], [], [], [], [], []
 
     def record(i, case, out):
         outs.append(out)
@@ -741,7 +768,9 @@ def run(ctx):
     # ---- histories on one scene with live models ----------------------------------------------------
     for hi, hist in enumerate(histories):
         ctx.crumb({"history": hist})
-        for case, out, k in impl.run_history(hist):
+        views = []
+        hist_views.append(views)
+        for case, out, k in impl.run_history(hist, views):
             case["_history"], case["_step"], case["_op"] = hi, k, hist["steps"][k]["op"]
             cases.append(case)
             record(len(cases) - 1, case, out)
@@ -765,7 +794,44 @@ def run(ctx):
         txt = (header + "Definition results : list bool := [\n  " + ";\n  ".join(chunk)
                + "].\nEval vm_compute in (failing results).\n")
         files.append((ctx.write_gen("cases_%03d.v" % (si // per), txt), list(range(si, si + len(chunk)))))
-    res = coqc_many([f for f, _ in files], timeout=900)
+    # the composition mutations of every history, run through comp_add / comp_set of Model/C05_History.v
+    def entry(s):
+        return "(%s%%Z, %s%%Z, %s)" % (zlit(s["el"]), zlit(s["charge"]), qlit(impl.species_values(s, 0.0, 0.0, 0.0)[0]))
+
+    def cop(o):
+        if o[0] == "add":
+            s = o[1]
+            return "CAdd %s %s %s" % (zlit(s["el"]), zlit(s["charge"]), qlit(impl.species_values(s, 0.0, 0.0, 0.0)[0]))
+        if o[0] == "set":
+            return "CSet [%s]" % "; ".join(entry(s) for s in o[1])
+        return "CClear"
+
+    hist_lines = []
+    for views in hist_views:
+        steps = []
+        for ops, view in views:
+            seen = "[%s]" % "; ".join("(%s%%Z, %s%%Z, %s)" % (zlit(k[0]), zlit(k[1]), qlit(n))
+                                      for k, n in zip(view["keys"], view["density_at_origin"]))
+            steps.append("([%s], %s)" % ("; ".join(cop(o) for o in ops), seen))
+        hist_lines.append("check_comp_history [] [%s]" % ";\n    ".join(steps))
+    hist_file = None
+    if hist_lines:
+        hist_file = ctx.write_gen("composition_histories.v", header + "Definition results : list bool := [\n  "
+                                  + ";\n  ".join(hist_lines) + "].\nEval vm_compute in (failing results).\n")
+    res = coqc_many([f for f, _ in files] + ([hist_file] if hist_file else []), timeout=900)
+    if hist_file:
+        ok, outp = res[hist_file]
+        vals = parse_evals(outp) if ok else []
+        good = ok and len(vals) == 1
+        failing = parse_zlist(vals[0]) if good else []
+        ctx.obligation("composition histories: comp_add / comp_set / clear of the model run by Coq == keys, order and members the "
+                       "real container reports after every step, exactly (%d histories, %d steps)"
+                       % (len(hist_views), sum(len(v) for v in hist_views)), "correspondence", good and not failing,
+                       outp if not good else "DIFF in histories %s" % failing)
+        if not good:
+            ctx.broken.append("coqc failed on %s: %s" % (hist_file, outp[-500:]))
+        for h in failing:
+            log_fails.append((n_single, "composition container of history %d does not follow the dictionary model" % h))
     diff = []
     for f, ids in files:
         ok, outp = res[f]
@@ -880,7 +946,13 @@ def run(ctx):
         },
         "tolerance": {"outcome kind, call counts, sampled points": "exact",
                       "radiance, BeamCXPEC arguments, population / emission coefficient arguments, Z_eff, ion density": "relative 2^-40",
+                      "history evaluation on live objects vs freshly built scene (code, radiance, Z_eff, ion density, BeamCXPEC arguments)": "bitwise",
+                      "composition container after every history step (keys, order, member densities) vs comp_add/comp_set run by Coq": "exact",
+                      "RECIP_4_PI vs 1/(4 pi) (Gen/C05/Tie.v, kernel-checked)": "relative 2^-51",
+                      "notification table (Gen/C05/Tie.v, kernel-checked)": "exact booleans, probed from the implementation",
+                      "beam-emission / default-line-shape totals read back from the spectrum": "relative 2^-40",
                       "executable property (search)": "relative 1e-9"},
+        "probed_notification_table": {impl.PROBE_KINDS[k]: list(v) for k, v in sorted(probed.items())},
         "partial": ["the wavelength integral is taken as the radiance handed to the line shape (CX: recording LineShapeModel; "
                     "beam emission: read back from the spectrum through the real BeamEmissionMultiplet); normalisation of the "
                     "line shapes themselves is property C02",
